@@ -144,16 +144,17 @@ def run(seed, tier, lean) -> Result:
     if lean['build_ok']:
         lp = {}
         model = run_driver([{'op': 'gen', 'case': i, 'lang': lp.setdefault(id(s), lang_payload(s)), 'inst': inst_payload(m)}
-                            for i, (s, m) in enumerate(cases)])
+                            for i, (s, m) in enumerate(cases)], case_limit=30)
     third = []          # the cases for the third column (the GENERATED code), run after the real code
     for i, (spec, inst) in enumerate(cases):
         res.evaluations += 1
         mo = None
         if model is not None:
-            if 'error' in model[i]:
+            if 'skipped' in model[i]: pass
+            elif 'error' in model[i]:
                 res.violations.append(Violation(what='driver rejected a case: ' + model[i]['error'], fingerprint='C01:driver-error',
                                                 replay={'spec': spec, 'inst': inst}, no_failing_input=True)); continue
-            mo = model[i]['model']
+            mo = model[i].get('model')
         # a third of the cases: the model is first built larger, a graph is generated, the extras are removed through
         # the API (remove_asset_from_association / remove_association / remove_asset) and only then the graph is built
         cs = (seed * 1000003 + i) if i % 3 == 2 else None
